@@ -371,6 +371,11 @@ def check(ctx):
                             s_ = lit_str(side)
                             if s_ and expr_text(x["l"] if side is x["r"] else x["r"]) == "name":
                                 names.add(s_)
+                    # the same names as a closed literal set in any spelling (matches!, TABLE.contains(..), a membership helper over a constant table)
+                    from srclib import literal_set_guard as _lsg
+                    g_ = _lsg(S, x)
+                    if g_ is not None and x.get("k") in ("macro", "mcall", "call"):
+                        names |= set(g_[1])
                 always = arm["body"].get("k") == "lit" and arm["body"]["lit"].get("v") is True or (arm["body"].get("k") == "block" and any(s.get("k") == "expr" and s["e"].get("k") == "lit" and s["e"]["lit"].get("v") is True for s in arm["body"]["stmts"]))
                 got[mm.group(1)] = (names, always)
         need = {"app", "window", "webview"}
